@@ -125,6 +125,7 @@ def check(ctx):
     ctx.rule("R3", "no slice bound `-n` is evaluated unless n > 0 is established (x[:-0] == [] trap)", floor=1)
     ctx.rule("R5", "SQLite backend: the GC query cuts on the same age column the backend orders reads by, newest first", floor=4)
     ctx.rule("R4", "removal is control-dependent on `force or size_over < hsize`", floor=1)
+    ctx.rule("R9", "every history file is enumerated once: where the enumeration adds $XONSH_HISTORY_FILE 'unless it is listed already', the membership test looks for the path among paths - not among the (path, mtime) pairs the list still holds before the mtimes are dropped (always 'not listed': the file is counted twice and an unforced GC removes the oldest sessions of a history that fits its limit)", floor=1)
     ctx.rule("R8", "the live session's file stays locked for as long as the session lives: every whole-file rewrite of the session's own file by a JsonHistory method (other than creating it) dumps a mapping that carries the file's metadata over - loaded from the file, or written with `locked` and `ts` - a file without them is, to every GC pass, the oldest unlocked one", floor=1)
     ctx.rule("R7", "the limit text is read in full and its unit by one exact table lookup: a regular expression applied to the limit matches the whole text (what it does not understand is an error, never dropped), and the unit spelling is a key of the unit table - no partial match against the table's keys", floor=2)
     ctx.rule("R6", "a session's file is marked unlocked only when the session ends (or by the reboot repair): the flag is cleared under the at-exit mode only, and only session-end code asks for that mode", floor=3)
@@ -426,6 +427,7 @@ def check(ctx):
     _lock_release(ctx)
     _limit_parsing(ctx)
     _rewrite_keeps_lock(ctx)
+    _enumerated_once(ctx)
 
 
 SESSION_END = {
@@ -682,6 +684,63 @@ def _rewrite_keeps_lock(ctx):
             ctx.ob("R8", f"{JSON}:JsonHistory.{nm}", f"`{short(c, 50)}` rewrites the session's own file with its metadata (`locked`, `ts`) carried over", ok, key=f"JsonHistory.{nm}|rewrite-drops-lock", where=loc(c), detail=None if ok else f"dumped mapping comes from {[short(v, 50) for v in srcs]}")
     if n == 0:
         ctx.ob("R8", f"{JSON}:JsonHistory", "no method rewrites the session's own file in place (the flusher's read-extend-replace keeps whatever the file holds)", True, key="JsonHistory|no-own-rewrite")
+
+
+def _enumerated_once(ctx):
+    """shape of the elements of a local list (pair / scalar), followed statement by statement through the enumerator"""
+    mod = ctx.repo.module(JSON)
+    fn = mod.func("_xhj_get_history_files")
+    st = f"{JSON}:_xhj_get_history_files"
+    shape = {}
+    tests = []
+
+    def elt_shape(e):
+        if isinstance(e, ast.Tuple):
+            return "pair"
+        if isinstance(e, (ast.Name, ast.Subscript, ast.Call, ast.Constant, ast.Attribute, ast.JoinedStr)):
+            return "scalar"
+        return "?"
+
+    def visit(stmts):
+        for s_ in stmts:
+            for c in [x for x in ast.walk(s_) if isinstance(x, ast.Compare) and len(x.ops) == 1 and isinstance(x.ops[0], (ast.In, ast.NotIn)) and isinstance(x.comparators[0], ast.Name) and x.comparators[0].id in shape] if not isinstance(s_, (ast.For, ast.While, ast.If, ast.With, ast.Try)) else []:
+                tests.append((c, shape.get(c.comparators[0].id), elt_shape(c.left)))
+            if isinstance(s_, ast.Assign) and len(s_.targets) == 1 and isinstance(s_.targets[0], ast.Name):
+                nm, v = s_.targets[0].id, s_.value
+                if isinstance(v, ast.List):
+                    shape[nm] = elt_shape(v.elts[0]) if v.elts else "empty"
+                elif isinstance(v, ast.ListComp):
+                    shape[nm] = elt_shape(v.elt)
+                elif isinstance(v, ast.Call) and call_name(v) in ("sorted", "list") and v.args and isinstance(v.args[0], ast.Name) and v.args[0].id in shape:
+                    shape[nm] = shape[v.args[0].id]
+                elif nm in shape:
+                    shape[nm] = "?"
+            elif isinstance(s_, ast.Expr) and isinstance(s_.value, ast.Call) and isinstance(s_.value.func, ast.Attribute) and isinstance(s_.value.func.value, ast.Name) and s_.value.func.value.id in shape and s_.value.func.attr in ("append", "insert") and s_.value.args:
+                sh = elt_shape(s_.value.args[-1])
+                cur = shape[s_.value.func.value.id]
+                shape[s_.value.func.value.id] = sh if cur in ("empty", sh) else "mixed"
+            elif isinstance(s_, (ast.For, ast.While)):
+                visit(s_.body)
+                visit(s_.orelse)
+            elif isinstance(s_, ast.If):
+                for c in [x for x in ast.walk(s_.test) if isinstance(x, ast.Compare) and len(x.ops) == 1 and isinstance(x.ops[0], (ast.In, ast.NotIn)) and isinstance(x.comparators[0], ast.Name) and x.comparators[0].id in shape]:
+                    tests.append((c, shape.get(c.comparators[0].id), elt_shape(c.left)))
+                visit(s_.body)
+                visit(s_.orelse)
+            elif isinstance(s_, (ast.With, ast.Try)):
+                visit(s_.body)
+                for h in getattr(s_, "handlers", []):
+                    visit(h.body)
+                visit(getattr(s_, "orelse", []))
+                visit(getattr(s_, "finalbody", []))
+
+    visit(fn.body)
+    if not tests:
+        ctx.ob("R9", st, "no 'unless listed already' membership test in the enumeration (nothing is added conditionally)", True, key="_xhj_get_history_files|no-membership-test")
+        return
+    for c, have, want in tests:
+        ok = have in (want, "empty") and have not in ("mixed", "?")
+        ctx.ob("R9", st, f"`{short(c, 50)}` looks for a {want} among {have}s", ok, key="_xhj_get_history_files|membership-test-mixes-shapes", where=loc(c), detail=None if ok else f"the list holds {have} elements at this point, the needle is a {want}: the test cannot be true")
 
 META = {
     "technique": "static analysis: def-use provenance of the removal set, CFG guard dominance, slice-shape rule over history/json.py",
